@@ -242,6 +242,16 @@ class FullOps(TorchCalls):
                 return t.but(p=False, poly=None)
             vtxt = ast.unparse(node.args[0]) if isinstance(node, ast.Call) and node.args else ""
             return self.tag(t.but(poly=None), "fill_diagonal", node, value_text=vtxt.replace('"', "'"), in_origin=sorted(t.origin), axes=list(t.axes))
+        if name in ("masked_fill", "masked_fill_") and len(args) == 2 and tv_of(args[0]) is not None:
+            # entries where the mask holds are replaced by a constant: where(mask, value, t). Invariance flags as for `where`; the mask's
+            # provenance is recorded so that rules can tell a positional mask (eye) from one computed from the values themselves
+            mk = tv_of(args[0])
+            if name.endswith("_"):
+                self.ev("inplace", node, alias=t.alias, target=name)
+            fl_ = dict(p=t.p and mk.p, q=t.q and mk.q, s=t.s and mk.s, z=t.z and mk.z)
+            vtxt = ast.unparse(node.args[1]) if isinstance(node, ast.Call) and len(node.args) > 1 else ""
+            out_ = t.but(poly=None, alias=t.alias and name.endswith("_"), origin=t.origin | frozenset(o if o.endswith(("#ctl", "#meta")) else o + "#ctl" for o in mk.origin), **fl_)
+            return self.tag(out_, "masked_fill", node, value_text=vtxt.replace('"', "'"), in_origin=sorted(t.origin), mask_origin=sorted(mk.origin), axes=list(t.axes))
         if name == "diag":
             return self.diag(t, node)
         if name in ("fill_", "zero_", "add_", "sub_", "mul_", "div_", "copy_", "clamp_", "abs_", "neg_", "sqrt_", "normal_",
@@ -576,7 +586,7 @@ class FullOps(TorchCalls):
             self.ev("scale_branch", node, left=str(a0.deg), right="0",
                     why="torch.nn.functional.normalize clamps the norm with an absolute eps (1e-12)")
             return a0.but(deg=None, alias=False, span=a0.span)
-        if fn in ("cosine_similarity", "pairwise_distance"):
+        if fn in ("cosine_similarity",) or (fn == "pairwise_distance" and not (len(args) >= 2 and tv_of(args[1]) is not None)):
             self.ev("scale_branch", node, left=str(a0.deg), right="0", why=f"{fn} uses an absolute eps")
             return self.unk(fn, node)
         if fn == "softmax" or fn == "log_softmax":
@@ -728,6 +738,9 @@ class FullOps(TorchCalls):
             return self.elementwise(a0.but(axes=a0.axes + ("1",)), b, "mul", node)
         if fn in ("svd",):
             return self.svd(a0, kwargs, node, lib)
+        if fn == "svdvals":
+            r_ = self.svd(a0, kwargs, node, lib)
+            return r_.items[1] if isinstance(r_, ListV) else r_
         if fn in ("eigh", "eig", "eigvalsh", "eigvals"):
             self.interp.may_raise(["LinAlgError"], node, fn)
             if len(a0.axes) != 2:
@@ -757,6 +770,26 @@ class FullOps(TorchCalls):
         if fn in ("solve", "lstsq"):
             b = tv_of(args[1])
             return self.matmul(a0.but(axes=(a0.axes[1], a0.axes[0]), deg=deg_scale(a0.deg, -1)), b, node)
+        if fn == "pairwise_distance" and len(args) >= 2 and tv_of(args[1]) is not None:
+            # F.pairwise_distance(x1, x2, p=2, eps=1e-6): ||x1 - x2 + eps||_p over the last axis — the default eps is added to every coordinate of the difference
+            b = tv_of(args[1])
+            pv = kwargs.get("p", args[2] if len(args) > 2 else None)
+            pn = 2 if pv is None else (tv_of(pv).poly.const_value() if tv_of(pv) is not None and tv_of(pv).poly is not None else None)
+            ev_ = kwargs.get("eps", args[3] if len(args) > 3 else Const(1e-6))
+            eps0 = isinstance(ev_, Const) and ev_.v == 0
+            d_ = self.elementwise(a0, b, "sub", node)
+            if isinstance(d_, TV) and not eps0:
+                et = tv_of(ev_)
+                d_ = self.elementwise(d_, et, "add", node) if et is not None else self.unk("pairwise_distance eps", node)
+            if not isinstance(d_, TV):
+                return d_
+            out_ = self.reduce(d_, "norm", Const(-1), bool(self.interp.truth(kwargs.get("keepdim", FALSE))), node, ord_=pn)
+            rawv = lambda t, ax: t.alias and t.origin == frozenset(["matrix"]) and tuple(t.axes) == ax
+            if isinstance(out_, TV) and ((rawv(a0, ("R", "1", "C")) and rawv(b, ("1", "R", "C"))) or (rawv(a0, ("1", "R", "C")) and rawv(b, ("R", "1", "C")))):
+                # all pairs of rows of the input: the matrix torch.cdist(matrix, matrix) computes, from exact differences (plus eps per coordinate unless eps=0)
+                out_ = out_.but(origin=frozenset(o for o in out_.origin if not o.startswith("reduce#")))  # the norm is part of the distance, not a reduction of it
+                out_ = self.tag(out_, "cdist", node, p=str(pn), compute_mode="donot_use_mm_for_euclid_dist", both_raw=True, eps=None if eps0 else repr(ev_))
+            return out_
         if fn == "cdist":
             b = tv_of(args[1])
             pv = kwargs.get("p", args[2] if len(args) > 2 else None)
